@@ -38,7 +38,7 @@ func runC11(c *Ctx) {
 	for _, s := range c11SimplifyPool {
 		c.Case("simplify-pool", L(S("simplify"), S(s)), S(profile.VerifSimplifyFunc(s)), s != profile.VerifSimplifyFunc(s), "op:simplify")
 	}
-	for i := 0; i < c.Budget(400, 5000); i++ {
+	for i := 0; i < c.Budget(250, 5000); i++ {
 		s := ""
 		for j := r.Intn(6); j >= 0; j-- {
 			s += PickS(r, pieces)
@@ -106,7 +106,7 @@ func runC11(c *Ctx) {
 		}
 		return c06GenStacks(r, kn)
 	}
-	for i := 0; i < c.Budget(700, 10000); i++ {
+	for i := 0; i < c.Budget(450, 10000); i++ {
 		drop := PickS(r, c11Drops)
 		var keep *string
 		if ks := PickS(r, c11Keeps); ks != "" {
@@ -114,10 +114,10 @@ func runC11(c *Ctx) {
 		}
 		prune("prune-rand", pick(), drop, keep)
 	}
-	for i := 0; i < c.Budget(500, 8000); i++ {
+	for i := 0; i < c.Budget(350, 8000); i++ {
 		pruneFrom("prunefrom-rand", pick(), PickS(r, c11Drops))
 	}
-	for i := 0; i < c.Budget(400, 5000); i++ {
+	for i := 0; i < c.Budget(280, 5000); i++ {
 		p := pick()
 		if !r.P(1, 8) {
 			p.DropFrames = PickS(r, c11Drops)
@@ -155,7 +155,7 @@ func runC11(c *Ctx) {
 	knF.MapFiles = []string{"bin", "libx.so", "[vdso]"}
 	knFM := knMeta
 	knFM.MapFiles = knF.MapFiles
-	for i := 0; i < c.Budget(400, 6000); i++ {
+	for i := 0; i < c.Budget(250, 6000); i++ {
 		var p *profile.Profile
 		if r.P(1, 3) {
 			p = c06GenStacks(r, knFM)
@@ -180,7 +180,7 @@ func runC11(c *Ctx) {
 	// alternations whose first / last alternative starts / ends with a group, whole-expression groups,
 	// expressions that already carry ^ or $, flags) probed with names that match an alternative only
 	// PARTIALLY (prefix, suffix, infix, two alternatives glued together) next to names that match fully
-	for i := 0; i < c.Budget(300, 6000); i++ {
+	for i := 0; i < c.Budget(220, 6000); i++ {
 		p, tag := c11AnchorProbe(r)
 		if i%3 == 2 {
 			fetch("anchor-probe", p)
@@ -204,7 +204,7 @@ func runC11(c *Ctx) {
 			}
 		}
 	}
-	for i := 0; i < c.Budget(500, 8000); i++ {
+	for i := 0; i < c.Budget(350, 8000); i++ {
 		var p *profile.Profile
 		if r.P(1, 3) {
 			p = c06GenStacks(r, knFM)
@@ -242,6 +242,8 @@ func runC11(c *Ctx) {
 		}
 		c11History(c, "history-rand", p, steps)
 	}
+	// ---- end-to-end layer
+	c11E2EStreams(c)
 }
 
 // c11FreeSamples renders the samples of p without ids: values, labels and, leaf first, one
